@@ -83,10 +83,10 @@ TDayWeather == /\ IsEvent("day.weather") /\ pc = "weather"
                /\ pc' = "gw" /\ ix' = [ix EXCEPT !.wea = l]
                /\ Keep(<<nsub, acc, prev, tenv, hist, gwseen>>)
 
-GwKey(e) == e.grw
+GwKey(e) == IF Has(e, "grwkey") THEN e.grwkey ELSE e.grw   \* the exact level (bits of the float), not its 1e-6 rendering
 TDayGw == /\ IsEvent("day.gw") /\ pc = "gw"
           /\ pc' = "inputs" /\ ix' = [ix EXCEPT !.gw = l]
-          /\ gwseen' = (IF \E i \in 1..Len(gwseen) : gwseen[i][1] = GwKey(E) THEN gwseen ELSE Append(gwseen, <<GwKey(E), l>>))
+          /\ gwseen' = (IF \E i \in 1..Len(gwseen) : gwseen[i][3] = GwKey(E) THEN gwseen ELSE Append(gwseen, <<E.grw, l, GwKey(E)>>))
           /\ Keep(<<nsub, acc, prev, tenv, hist>>)
 
 TDayInputs == /\ IsEvent("day.inputs") /\ pc = "inputs"
@@ -481,14 +481,21 @@ C15_Threshold == AtParams => Ev.WMIN[1] < Ev.WRED /\ Ev.WRED < Ev.W[1]
 \* a layer that lies entirely below the table has field capacity = pore volume
 C15_Saturated == AfterGw => \A i \in PL : ((i - 1) * 1000000 >= Ev.grw) => Ev.W[i] = Ev.PORGES[i]
 \* the first day this level was seen gave the same parameters
-FirstSeen == LET k == CHOOSE k \in 1..Len(gwseen) : gwseen[k][1] = Ev.grw IN Trace[gwseen[k][2]]
-C15_SameLevel == AfterGw => /\ FirstSeen.W = Ev.W /\ FirstSeen.WMIN = Ev.WMIN /\ FirstSeen.PORGES = Ev.PORGES
-                            /\ FirstSeen.WNOR = Ev.WNOR /\ FirstSeen.WRED = Ev.WRED
+FirstSeenK == CHOOSE k \in 1..Len(gwseen) : gwseen[k][3] = GwKey(Ev)
+FirstSeen == Trace[gwseen[FirstSeenK][2]]
+SameAsFirstSeen == /\ FirstSeen.W = Ev.W /\ FirstSeen.WMIN = Ev.WMIN /\ FirstSeen.PORGES = Ev.PORGES
+                   /\ FirstSeen.WNOR = Ev.WNOR /\ FirstSeen.WRED = Ev.WRED
+\* the first recorded level is the level of the start when the table did not move on the first day (the daily block
+\* has not run yet: the parameters are still those of Input / Init)
+FirstIsStartState == FirstSeenK = 1 /\ Trace[gwseen[1][2]].old = Trace[gwseen[1][2]].grw
+C15_SameLevel == (AfterGw /\ ~FirstIsStartState) => SameAsFirstSeen
+\* ... the same statement against the parameters of the start (separate name: known finding H23 is matched by it)
+C15_SameLevelStart == (AfterGw /\ FirstIsStartState) => SameAsFirstSeen
 \* ... and the level the run started with (Init: the day before the first day) counts as a level the table had: when the
 \* table is back there, wilting point, pore volume and uncorrected field capacity are those of the start (the field
 \* capacity of the start is a mixture of two levels - the table of the input files and the level of the day - and is
 \* not compared)
-C15_StartLevel == (AfterGw /\ ix.cfg > 0 /\ Ev.grw = Cfg.grw) =>
+C15_StartLevel == (AfterGw /\ ix.cfg > 0 /\ GwKey(Ev) = GwKey(Cfg)) =>
    Cfg.WMIN = Ev.WMIN /\ Cfg.PORGES = Ev.PORGES /\ Cfg.WNOR = Ev.WNOR
 \* explicit route (field capacity, wilting point and pore volume given in the soil file; header: Gen.fcBase / wpBase /
 \* pvBase per layer at 1e-9): the parameters in use are a FUNCTION OF THE LEVEL (init.go setFieldCapacityWithGW): layers
@@ -514,7 +521,7 @@ C15_ExplicitAtStart == (l > 1 /\ Ev.ev = "run.config" /\ HasBase) => \A i \in PL
    /\ Ev.WMIN[i] = Gen.wpBase[i] /\ Ev.PORGES[i] = Gen.pvBase[i]
    /\ Ev.W[i] >= Gen.fcBase[i] /\ Ev.W[i] <= Gen.pvBase[i]
    /\ (i * 1000000 + 500000 < Min(Ev.gw, Ev.grw) => Ev.W[i] = Gen.fcBase[i])
-C15_All == C15_StartLevel /\ C15_LevelFunction /\ C15_ExplicitAtStart /\ C15_Order /\ C15_FcLePv /\ C15_Threshold /\ C15_Saturated /\ C15_SameLevel
+C15_All == C15_StartLevel /\ C15_LevelFunction /\ C15_ExplicitAtStart /\ C15_Order /\ C15_FcLePv /\ C15_Threshold /\ C15_Saturated /\ C15_SameLevel /\ C15_SameLevelStart
 
 
 \* =============================================================================================
